@@ -172,8 +172,11 @@ func TestVerifC44UploadSession(t *testing.T) {
 	rapid.Check(t, func(t *rapid.T) {
 		ctx := context.Background()
 		version := uint(rapid.SampledFrom([]int{1, 2, 2}).Draw(t, "version"))
-		comp := rapid.SampledFrom([]CompressionMode{CompressionOff, CompressionOff, CompressionAuto, CompressionMax}).Draw(t, "compression")
-		real := rapid.IntRange(0, 9).Draw(t, "realsize") == 0
+		// the compression level is irrelevant here and the stronger zstd encoders cost tens of MiB of
+		// table initialisation per repository object; "auto" is kept at 1 in 10
+		comp := rapid.SampledFrom([]CompressionMode{CompressionOff, CompressionOff, CompressionOff, CompressionOff, CompressionFastest,
+			CompressionFastest, CompressionFastest, CompressionFastest, CompressionFastest, CompressionAuto}).Draw(t, "compression")
+		real := rapid.IntRange(0, 24).Draw(t, "realsize") == 0
 		var packSize int
 		if real {
 			packSize = rapid.SampledFrom([]int{MinPackSize, MinPackSize, MinPackSize + 4096, 6 * 1024 * 1024}).Draw(t, "packsize")
@@ -215,9 +218,11 @@ func TestVerifC44UploadSession(t *testing.T) {
 		var blobs []*vBlobC44
 		var budget int
 		if real {
-			budget = rapid.IntRange(packSize, 3*packSize+packSize/2).Draw(t, "bytes")
+			budget = rapid.IntRange(packSize, 3*packSize).Draw(t, "bytes")
+		} else if rapid.IntRange(0, 5).Draw(t, "smallbudget") == 0 {
+			budget = rapid.IntRange(0, packSize).Draw(t, "bytes")
 		} else {
-			budget = rapid.IntRange(0, 8*packSize).Draw(t, "bytes")
+			budget = packSize * rapid.IntRange(2, 10).Draw(t, "packsworth")
 		}
 		maxBlobs := 80
 		sum := 0
